@@ -613,6 +613,7 @@ func c12Tasks(tier string) []Task {
 			}})
 		}
 	}
+	tasks = append(tasks, Task{Level: "live-damage", Name: "damage under an open handle", Fn: c12LiveTask})
 	return tasks
 }
 
@@ -637,6 +638,20 @@ func init() {
 				ReaderIO byte   `json:"reader_io"`
 			}
 			json.Unmarshal(raw, &m)
+			var eng struct {
+				Engine string `json:"engine"`
+			}
+			json.Unmarshal(raw, &eng)
+			if eng.Engine == "live-damage" {
+				var res TaskResult
+				c12LiveTask(&res)
+				for _, v := range res.Violations {
+					fmt.Printf("VIOLATION clause=%s\n%s\n", v.Clause, v.Detail)
+					os.Exit(1)
+				}
+				fmt.Println("no violation on this tree")
+				return
+			}
 			for _, im := range c12Images("thorough") {
 				if im.Name != m.Image {
 					continue
@@ -659,4 +674,113 @@ func init() {
 			}
 		},
 	})
+}
+
+// ---- damage while the database is open (Standard I/O) -------------------------------------------------------------
+// The data file is cut or altered UNDER an open handle: the index (in memory) still names every record, the cached
+// file size is the old one, read buffers hold what earlier reads left in them. Sixteen records of exactly 4096 bytes
+// fill two blocks, so every in-block offset of block 1 also starts a record in block 0 (stale buffer contents are
+// well-formed chunks of ANOTHER key). Every Get returns the written value or an error.
+func c12LiveTask(res *TaskResult) {
+	beginExecution()
+	cfg := megCfg(1 << 20)
+	var keys []string
+	for c := byte('a'); c < 'a'+16; c++ {
+		keys = append(keys, string([]byte{c}))
+	}
+	w := NewWorld(cfg, keys)
+	defer w.Destroy()
+	res.Execs++
+	if err := w.Open(); err != nil {
+		res.Err = "c12 live: open: " + panicDetail(err)
+		return
+	}
+	for _, k := range keys {
+		if ar := w.Apply(Op{K: "put", Key: k, VC: "F", Arg: 4083}); ar.Err != nil {
+			res.Err = "c12 live: put failed"
+			return
+		}
+	}
+	path := filepath.Join(w.Dir, "000000000.data")
+	pristine, err := os.ReadFile(path)
+	if err != nil || len(pristine) != 16*4096 {
+		res.Err = fmt.Sprintf("c12 live: the image is not 16 records of 4096 bytes (%d bytes)", len(pristine))
+		return
+	}
+	type lf struct {
+		kind string
+		pos  int
+	}
+	var faults []lf
+	for p := 0; p < len(pristine); p++ {
+		o := p % 4096
+		if o <= 20 || o >= 4096-8 || o == 2048 {
+			faults = append(faults, lf{"trunc", p})
+		}
+		if o < 16 {
+			faults = append(faults, lf{"flip", p})
+		}
+	}
+	for _, f := range faults {
+		for _, warm := range [][]int{{0, 15}, {15, 0}} { // which block the read buffers saw last
+			res.Transitions++
+			progressTick.Add(1)
+			if err := os.WriteFile(path, pristine, 0o644); err != nil {
+				res.Err = "c12 live: restore: " + err.Error()
+				return
+			}
+			bad := ""
+			perr := w.guard(func() error {
+				for _, i := range warm {
+					if v, err := w.DB.Get([]byte(keys[i])); err != nil || string(v) != w.Model[keys[i]] {
+						bad = fmt.Sprintf("on the pristine file Get(%q) = %s / %s", keys[i], short(string(v)), errClass(err))
+						return nil
+					}
+				}
+				switch f.kind {
+				case "trunc":
+					os.Truncate(path, int64(f.pos))
+				case "flip":
+					d := append([]byte(nil), pristine...)
+					d[f.pos] ^= 0x10
+					os.WriteFile(path, d, 0o644)
+				}
+				for _, k := range keys {
+					v, err := w.DB.Get([]byte(k))
+					res.Evals++
+					if err == nil && string(v) != w.Model[k] {
+						bad = fmt.Sprintf("Get(%q) returned %s (no error), written %s", k, short(string(v)), short(w.Model[k]))
+						return nil
+					}
+				}
+				w.DB.Fold(func(k, v []byte) bool {
+					if string(v) != w.Model[string(k)] {
+						bad = fmt.Sprintf("Fold returned %s for key %q, written %s", short(string(v)), k, short(w.Model[string(k)]))
+						return false
+					}
+					return true
+				})
+				return nil
+			})
+			if perr != nil {
+				bad = "panic: " + panicDetail(perr)
+			}
+			res.States = append(res.States, hash64(f.kind, fmt.Sprint(f.pos, warm)))
+			if bad != "" {
+				v := Violation{Prop: "C12", Clause: "live-damage", Sig: "live-damage:" + f.kind,
+					Detail: fmt.Sprintf("16 records of 4096 bytes in one open data file (Standard I/O); buffers warmed by Get(%s), Get(%s); then %s at byte %d of the file under the open handle\n%s", keys[warm[0]], keys[warm[1]], f.kind, f.pos, bad),
+					Replay: mustJSON(map[string]any{"engine": "live-damage", "property": "C12", "kind": f.kind, "pos": f.pos})}
+				addViolation(res, &v)
+				if len(res.Violations) >= 3 {
+					return
+				}
+				// the instance may be poisoned by a panic: start over
+				if w.Dead {
+					return
+				}
+			}
+		}
+	}
+	res.Nontrivial++
+	res.Samples = append(res.Samples, fmt.Sprintf("%d faults (cuts at every record boundary +-20 / -8 bytes and mid-record, bit flips in every record's framing) x 2 buffer histories under an open handle", len(faults)))
 }
